@@ -1,6 +1,6 @@
 (* C08: every row print hands to interp.writeCSV reaches its destination completely and in
-   order: for every kind of destination (unbuffered, a *bufio.Writer of at least 4096 bytes,
-   a stream that embeds a bufio.Writer, any stack of them) the bytes at the sink after the end
+   order: for every kind of destination (unbuffered, a *bufio.Writer of any size, a stream
+   that embeds a bufio.Writer, any stack of them) the bytes at the sink after the end
    of the run are what was there before followed by the row texts of the rows printed. *)
 From Verif Require Import Lib.Base Lib.Utf8 Model.Csv Proofs.CsvBase.
 
@@ -47,45 +47,31 @@ Qed.
 Theorem delivered_close d : delivered (d_close d) = d_total d.
 Proof. apply delivered_close_f. reflexivity. Qed.
 
-(* the destinations for which csv.NewWriter does what writeCSV's comment expects: not a
-   *bufio.Writer (then writeCSV wraps and flushes itself), or one of at least 4096 bytes *)
-Definition out_ok (o : out) : Prop :=
-  o_bufio o = true -> exists size buf under, o_d o = DBuf size buf under /\ csv_buf_size <= size.
-
-Lemma write_csv_to_ok sep crlf o fs : out_ok o ->
-  exists o', write_csv_to sep crlf o fs = Ok o' /\ out_ok o' /\
-    d_total (o_d o') = d_total (o_d o) ++ write_record sep crlf fs.
+Lemma wrap_write_total d row : d_total (wrap_write d row) = d_total d ++ row.
 Proof.
-  intros Hok. unfold write_csv_to, out_ok in *. destruct o as [b d]. cbn [o_bufio o_d] in *. destruct b.
-  - destruct (Hok eq_refl) as (size & buf & under & -> & Hs).
-    replace (csv_buf_size <=? size) with true by lia.
-    destruct (d_write_buf size buf under (write_record sep crlf fs)) as (buf' & under' & E).
-    eexists. split; [reflexivity|]. split.
-    + unfold out_ok. intros _. cbn [o_d]. rewrite E. eauto.
-    + cbn [o_d]. apply d_total_write.
-  - destruct (d_write_buf csv_buf_size [] d (write_record sep crlf fs)) as (buf' & under' & E).
-    pose proof (d_total_write (DBuf csv_buf_size [] d) (write_record sep crlf fs)) as Ht.
-    rewrite E in *. cbn [d_flush]. eexists. split; [reflexivity|]. split; [unfold out_ok; intros X; discriminate|].
-    cbn [o_d d_total] in *. rewrite d_total_write, Ht, app_nil_r. reflexivity.
+  unfold wrap_write.
+  destruct (d_write_buf csv_buf_size [] d row) as (buf' & under' & E).
+  pose proof (d_total_write (DBuf csv_buf_size [] d) row) as Ht. rewrite E in *.
+  cbn [d_flush d_total] in *. rewrite d_total_write, Ht, app_nil_r. reflexivity.
 Qed.
 
-Lemma write_rows_to_ok sep crlf : forall rows o, out_ok o ->
-  exists o', write_rows_to sep crlf o rows = Ok o' /\ out_ok o' /\
-    d_total (o_d o') = d_total (o_d o) ++ write_csv sep crlf rows.
+(* one row: whatever the destination, the row is appended to what was written before *)
+Lemma write_csv_to_total sep crlf o fs :
+  d_total (o_d (write_csv_to sep crlf o fs)) = d_total (o_d o) ++ write_record sep crlf fs.
 Proof.
-  induction rows as [|fs rows IH]; intros o Hok.
-  - exists o. cbn. rewrite app_nil_r. auto.
-  - destruct (write_csv_to_ok sep crlf o fs Hok) as (o1 & E1 & Hok1 & T1).
-    destruct (IH o1 Hok1) as (o2 & E2 & Hok2 & T2).
-    exists o2. cbn [write_rows_to]. rewrite E1. cbn [rbind]. split; [exact E2|]. split; [exact Hok2|].
-    rewrite T2, T1. cbn [write_csv flat_map]. rewrite <- app_assoc. reflexivity.
+  unfold write_csv_to. destruct (direct o); cbn [o_d]; [apply d_total_write | apply wrap_write_total].
 Qed.
 
-(* after the run, the destination holds what it held (or had buffered) before, followed by the
-   text of every row printed to it, complete and in order *)
-Theorem emit_rows_complete sep crlf o rows : out_ok o ->
-  emit_rows sep crlf o rows = Ok (d_total (o_d o) ++ write_csv sep crlf rows).
+Lemma write_rows_to_total sep crlf : forall rows o,
+  d_total (o_d (write_rows_to sep crlf o rows)) = d_total (o_d o) ++ write_csv sep crlf rows.
 Proof.
-  intros Hok. unfold emit_rows. destruct (write_rows_to_ok sep crlf rows o Hok) as (o' & E & _ & T).
-  rewrite E. cbn [rbind]. rewrite delivered_close, T. reflexivity.
+  unfold write_rows_to. induction rows as [|fs rows IH]; intros o; cbn [fold_left write_csv flat_map].
+  - rewrite app_nil_r. reflexivity.
+  - rewrite IH, write_csv_to_total, <- app_assoc. reflexivity.
 Qed.
+
+(* after the run, EVERY destination holds what it held (or had buffered) before, followed by
+   the text of every row printed to it, complete and in order *)
+Theorem emit_rows_complete sep crlf o rows :
+  emit_rows sep crlf o rows = d_total (o_d o) ++ write_csv sep crlf rows.
+Proof. unfold emit_rows. rewrite delivered_close. apply write_rows_to_total. Qed.
